@@ -177,6 +177,7 @@ var c20Skip = map[string]string{
 }
 
 func runC20(c *an.Ctx) {
+	cmdConversions(c, "C20-R5", nil, 30)
 	// ---- R10: the builder hands every validated setting to the component it configures
 	c.Floor("C20-R10", 40)
 	builderWiring(c, "C20-R10", map[string][]string{
